@@ -103,4 +103,48 @@ theorem implParseC_eq (M : Machine σ ε) (st : σ) (cache data : List UInt8) (a
   · simp only [hd, if_false]
     exact loopC_eq_loop M _ _ _ _ _ _ (Nat.zero_le _) (by simp)
 
+/-! ### `Parse` as the engine calls it, and chains of calls — the functions the driver executes -/
+
+/-- Parse with the engine's ReadLimit test in front (limit = 0: disabled); error 11 = ErrTooLong -/
+def parseL (M : Machine σ ε) (limit : Nat) (st : σ) (cache data : List UInt8) (acc : List ε) : Res σ ε :=
+  if cache ≠ [] ∧ limit > 0 ∧ cache.length + data.length > limit then ⟨acc, .inr 11⟩
+  else implParse M st cache data acc
+
+/-- the same with the checked loop; 998 = the Go code would panic on a slice/index expression (`parseLC_eq`: never) -/
+def parseLC (M : Machine σ ε) (limit : Nat) (st : σ) (cache data : List UInt8) (acc : List ε) : Res σ ε :=
+  if cache ≠ [] ∧ limit > 0 ∧ cache.length + data.length > limit then ⟨acc, .inr 11⟩
+  else (implParseC M st cache data acc).getD ⟨acc, .inr 998⟩
+
+theorem parseLC_eq (M : Machine σ ε) (limit : Nat) (st : σ) (cache data : List UInt8) (acc : List ε) :
+    parseLC M limit st cache data acc = parseL M limit st cache data acc := by
+  unfold parseLC parseL
+  rw [implParseC_eq]
+  rfl
+
+/-- a connection's reads fed one `Parse` call at a time (what the driver does line by line) -/
+def feedAllL (M : Machine σ ε) (limit : Nat) : σ → List UInt8 → List (List UInt8) → List ε → Res σ ε
+  | st, cache, [], acc => ⟨acc, .inl (st, cache)⟩
+  | st, cache, seg :: segs, acc =>
+    match parseLC M limit st cache seg acc with
+    | ⟨acc', .inl (st', cache')⟩ => feedAllL M limit st' cache' segs acc'
+    | r => r
+
+/-- no call of the chain trips the ReadLimit entry test -/
+def NoTrip (M : Machine σ ε) (limit : Nat) : σ → List UInt8 → List (List UInt8) → List ε → Prop
+  | _, _, [], _ => True
+  | st, cache, seg :: segs, acc =>
+    ¬ (cache ≠ [] ∧ limit > 0 ∧ cache.length + seg.length > limit) ∧
+    match implParse M st cache seg acc with
+    | ⟨acc', .inl (st', cache')⟩ => NoTrip M limit st' cache' segs acc'
+    | _ => True
+
+/-- the offsets at which the model parser, fed one byte per `Parse` call, emits its `done` events (message
+    boundaries as the model itself places them) -/
+def boundaries (M : Machine σ ε) (isDone : ε → Bool) : σ → List UInt8 → List UInt8 → Nat → List Nat
+  | _, _, [], _ => []
+  | st, cache, b :: bs, off =>
+    match parseLC M 0 st cache [b] [] with
+    | ⟨evs, .inl (st', cache')⟩ => List.replicate (evs.countP isDone) (off + 1) ++ boundaries M isDone st' cache' bs (off + 1)
+    | ⟨evs, .inr _⟩ => List.replicate (evs.countP isDone) (off + 1)
+
 end Scan
